@@ -376,6 +376,15 @@ func reiterScenarios(c *CheckRun) []*Scenario {
 func pureScenarios(c *CheckRun) []*Scenario {
 	var out []*Scenario
 	base := histFamiliesW(c, true, true)
+	if c.Tier == "quick" {
+		var thin []histB
+		for j, b := range base {
+			if len(b.ops) < 3 || b.big || j%2 == int(c.Seed)%2 {
+				thin = append(thin, b)
+			}
+		}
+		base = thin
+	}
 	i := 0
 	for _, b := range base {
 		whichs := []int{0, 1, 2, 4, 5, 6, 7}
